@@ -80,7 +80,8 @@ def parent(rng, first_child, nchildren, how, cancel=False, table=None):
     script = mid
     for i in reversed(range(nchildren)):
         c = first_child + i
-        script = ["spawn", list(how), s_children[i], ["do", ["log", PAFTER + c], script]]
+        h = list(how) + (["factory"] if how == ["eager"] and rng.random() < 0.4 else [])
+        script = ["spawn", h, s_children[i], ["do", ["log", PAFTER + c], script]]
     return script
 
 
@@ -107,7 +108,8 @@ def gen_case(rng, cancel=False):
         elif r < 0.93:
             acts.append(["do", ["setexc", rng.randrange(2), ["user", 9]]])
         elif cancel:
-            acts.append(["do", ["cancelaw", 2 + rng.randrange(3)]])
+            # only the eager awaitables (future ids after the shared futures and the parents' own tasks)
+            acts.append(["do", ["cancelaw", 2 + nparents + rng.randrange(3)]])
     acts += [["do", ["setresult", 0, 3]], ["do", ["setresult", 1, 4]]] + [["step"]] * 30
     return {"loop": loop, "locks": [], "conds": [], "events": 0, "acts": acts, "children": table, "nchildren": c,
             "nparents": nparents}
@@ -122,7 +124,7 @@ def as_plain(case):
     def conv(s):
         if not isinstance(s, list) or not s:
             return s
-        if s[0] == "spawn" and s[1] == ["eager"]:
+        if s[0] == "spawn" and isinstance(s[1], list) and s[1] and s[1][0] == "eager":
             # reference: a plain task; the variable then holds a task id, awaited with awaittask
             return ["spawn", ["plain"], conv(s[2]), conv(s[3])]
         if s[0] == "do" and s[1][0] == "awaitfut" and s[1][1] >= 1000:
